@@ -159,6 +159,8 @@ def collect(ctx: Ctx, nrand: int):
                         typelib.marshal(warm)
                         if isinstance(warm, (datetime.datetime, datetime.time, datetime.timedelta)):
                             serdes.isoformat(warm)
+                            typelib.unmarshal(str, warm)          # the temporal -> text routes have their own code path
+                            typelib.unmarshal(bytes, warm)
                     except Exception:
                         pass
                 # ---- what marshalling emits
